@@ -387,6 +387,82 @@ def same_orientation(f, g):
     return any(g == f[r:] + f[:r] for r in range(3))
 
 
+def _vol(a, b, c, d):
+    """6 x signed volume of the tetrahedron (a, b, c, d), broadcasting"""
+    return np.einsum("...i,...i->...", np.cross(b - a, c - a), d - a)
+
+
+def crossing_pairs(verts, faces, tol=1e-7):
+    """independent float64 ground truth for self-intersection: pairs of faces WITHOUT a common vertex where an
+    edge of one passes through the interior of the other.
+    -> (clear, maybe): `clear` pairs cross with every orientation predicate away from zero by tol * size^3,
+    `maybe` pairs cross if predicates inside that band are given the benefit of the doubt."""
+    V = np.asarray(verts, dtype=float)
+    F = np.asarray(faces, dtype=int)
+    n = len(F)
+    size = float(np.max(V.max(axis=0) - V.min(axis=0))) or 1.0
+    band = tol * size ** 3
+    I, J = np.triu_indices(n, 1)
+    share = np.array([len(set(F[i]) & set(F[j])) > 0 for i, j in zip(I, J)], dtype=bool) if n > 1 else np.zeros(0, bool)
+    I, J = I[~share], J[~share]
+    clear = np.zeros(len(I), dtype=bool)
+    maybe = np.zeros(len(I), dtype=bool)
+    T = V[F]
+    for A, B in ((I, J), (J, I)):
+        a, b, c = T[B, 0], T[B, 1], T[B, 2]
+        for k in range(3):
+            p, q = T[A, k], T[A, (k + 1) % 3]
+            sp, sq = _vol(a, b, c, p), _vol(a, b, c, q)
+            w = [_vol(p, q, a, b), _vol(p, q, b, c), _vol(p, q, c, a)]
+            opp_clear = (np.minimum(sp, sq) < -band) & (np.maximum(sp, sq) > band)
+            opp_maybe = (np.minimum(sp, sq) < band) & (np.maximum(sp, sq) > -band)
+            in_clear = (np.all([x > band for x in w], axis=0) | np.all([x < -band for x in w], axis=0))
+            in_maybe = (np.all([x > -band for x in w], axis=0) | np.all([x < band for x in w], axis=0))
+            clear |= opp_clear & in_clear
+            maybe |= opp_maybe & in_maybe
+    pairs = list(zip(I.tolist(), J.tolist()))
+    return [pr for pr, f in zip(pairs, clear) if f], [pr for pr, f in zip(pairs, maybe) if f]
+
+
+def truth_selfintersecting(mesh):
+    """True / False when construction and float64 geometry agree, None when the geometry is too close to call"""
+    clear, maybe = crossing_pairs(mesh["verts"], mesh["faces"])
+    if mesh.get("selfint") is None:
+        return None
+    if mesh["selfint"] and clear:
+        return True
+    if not mesh["selfint"] and not maybe:
+        return False
+    return None
+
+
+def kd_radius_excludes(mesh):
+    """every clearly crossing pair of faces has its centres farther apart than the ball radius
+    r_factor(=1.5) * max distance centre-vertex that get_intersecting_triangles queries"""
+    T = np.asarray(mesh["verts"], dtype=float)[np.asarray(mesh["faces"], dtype=int)]
+    cen = T.mean(axis=1)
+    rmax = float(np.sqrt(((T - cen[:, None, :]) ** 2).sum(-1)).max())
+    clear, _ = crossing_pairs(mesh["verts"], mesh["faces"])
+    return bool(clear) and all(np.linalg.norm(cen[i] - cen[j]) > 1.5 * rmax for i, j in clear)
+
+
+def components_outward(verts, faces):
+    """second, construction-independent orientation oracle: every vertex-connected component is consistently
+    wound (no directed edge used twice) and has positive signed volume"""
+    V = np.asarray(verts, dtype=float)
+    bad = []
+    for comp in truth_components(faces):
+        fs = [faces[i] for i in sorted(comp)]
+        de = collections.Counter()
+        for a, b, c in fs:
+            de[(a, b)] += 1
+            de[(b, c)] += 1
+            de[(c, a)] += 1
+        if any(v > 1 for v in de.values()) or signed_volume(V - V.mean(axis=0), fs) <= 0:
+            bad.append(sorted(comp))
+    return bad
+
+
 # =============================================================================== oracle on the real class
 POL = (0.13, -0.21, 0.34)
 
@@ -422,7 +498,12 @@ def field_close(a, b, rtol=1e-10):
 
 
 def check_mesh(mesh, ref=None):
-    """-> list of (clause, what).  The property's own oracle on one input mesh."""
+    """-> list of (clause, what).  The property's own oracle on one input mesh.
+    clauses: constructor | open | disconnected | selfintersecting-missed | selfintersecting-spurious |
+             orientation | field.
+    Orientation and field are demanded only of closed meshes that are free of self-intersections: for
+    interpenetrating parts "outwards" is not defined for faces buried in the other part, and the documentation
+    guarantees the field only for meshes that are not self-intersecting."""
     out = []
     try:
         src = make_mesh(mesh)
@@ -436,10 +517,15 @@ def check_mesh(mesh, ref=None):
     if bool(src.status_disconnected) != t_disc:
         out.append(("disconnected", f"status_disconnected={src.status_disconnected} but union-find on shared "
                     f"vertices says disconnected={t_disc}"))
-    if mesh.get("selfint") is not None and bool(src.status_selfintersecting) != mesh["selfint"]:
-        out.append(("selfintersecting", f"status_selfintersecting={src.status_selfintersecting} but the "
-                    f"construction is {'interpenetrating' if mesh['selfint'] else 'free of intersections'}"))
-    if mesh["closed"]:
+    t_self = truth_selfintersecting(mesh)
+    if t_self is not None and bool(src.status_selfintersecting) != t_self:
+        if t_self:
+            out.append(("selfintersecting-missed", "status_selfintersecting=False but faces of the two "
+                        "interpenetrating parts cross (float64 edge-through-face test with margins)"))
+        else:
+            out.append(("selfintersecting-spurious", "status_selfintersecting=True but the construction is free "
+                        "of intersections (confirmed by a float64 edge-through-face test with margins)"))
+    if mesh["closed"] and mesh.get("selfint") is False:
         got = np.asarray(src.faces).tolist()
         bad = [i for i, (g, t) in enumerate(zip(got, mesh["truth_faces"])) if not same_orientation(t, g)]
         if sorted(map(sorted, got)) != sorted(map(sorted, faces)):
@@ -448,6 +534,9 @@ def check_mesh(mesh, ref=None):
             parts = sorted({mesh["owner"][i] for i in bad})
             out.append(("orientation", f"{len(bad)} of {len(got)} faces point inwards after the default "
                         f"reorientation (parts {parts})"))
+        elif components_outward(mesh["verts"], got):
+            out.append(("orientation", "a component is inconsistently wound or has non-positive signed volume "
+                        "after the default reorientation"))
         elif ref is not None:
             obs, B0, H0 = ref
             B, H = src.getB(obs), src.getH(obs)
@@ -457,17 +546,48 @@ def check_mesh(mesh, ref=None):
     return out
 
 
-def minimal_transform_name(base, t, scale, offset, clause, ref):
-    """smallest set of transformation kinds (others reset to identity) on which the clause still fails"""
-    for k in range(0, len(TKINDS) + 1):
-        for kinds in itertools.combinations(TKINDS, k):
-            m = apply_transform(base, restrict_transform(t, kinds), scale, offset)
-            if any(c == clause for c, _ in check_mesh(m, ref)):
-                return ("+".join(TNAMES[x] for x in kinds) or "identity"), m
-    return "combined", apply_transform(base, t, scale, offset)
+def fails_clause(base, t, scale, offset, clause):
+    ref = reference_field(base, scale, offset) if (clause == "field" and base["closed"]) else None
+    m = apply_transform(base, t, scale, offset)
+    return any(c == clause for c, _ in check_mesh(m, ref)), m, ref
 
 
+def classify(base, t, scale, offset, clause):
+    """-> (trigger, smallest failing mesh found, its scale/offset/ref).  The trigger names what makes the clause
+    fail: the construction and the smallest set of input transformations when the failure is there at unit scale
+    with no vertex offset; otherwise the direction of the scale change or the vertex offset."""
+    nf, nv = len(base["faces"]), len(base["verts"])
+    zero = [0.0, 0.0, 0.0]
+    f1, _, _ = fails_clause(base, t, 1.0, zero, clause)
+    if f1:
+        for k in range(0, len(TKINDS) + 1):
+            for kinds in itertools.combinations(TKINDS, k):
+                ok, m, ref = fails_clause(base, restrict_transform(t, kinds), 1.0, zero, clause)
+                if ok:
+                    name = "+".join(TNAMES[x] for x in kinds) or "identity"
+                    trig = f"{base['construction']}:{name}"
+                    if clause == "selfintersecting-missed" and kd_radius_excludes(m):
+                        trig = "crossing-faces-beyond-kdtree-radius"
+                    return trig, m, 1.0, zero, ref
+    ident = gen_transform(None, nf, nv, [])
+    fs, _, _ = fails_clause(base, t, scale, zero, clause)
+    if fs and scale != 1.0:
+        trig = "scale>1" if scale > 1 else "scale<1"
+        for tt in (ident, t):
+            ok, m, ref = fails_clause(base, tt, scale, zero, clause)
+            if ok:
+                return trig, m, scale, zero, ref
+    for tt in (ident, t):
+        ok, m, ref = fails_clause(base, tt, scale, offset, clause)
+        if ok:
+            return ("vertex-offset" if not fs else "scale+offset"), m, scale, offset, ref
+    return "unstable", apply_transform(base, t, scale, offset), scale, offset, None
+
+
+# scale of the vertex coordinates (the unit is the metre; typical magnets are 1e-3 .. 1e-1) and vertex offsets in
+# units of the body size
 SCALES = [1e-3, 1e-2, 0.1, 1.0, 1.0, 1.0, 10.0, 1e2, 1e3]
+OFFSETS = [0, 0, 0, 3.7, -41.3, 1e3]
 
 
 def gen_base(rng, weights=None):
@@ -491,10 +611,11 @@ def search(ctx, n_bases, n_variants):
     for _ in range(n_bases):
         base = gen_base(rng)
         scale = rng.choice(SCALES)
-        offset = [scale * rng.choice([0, 0, 3.7, -41.3, 1e3]) * rng.choice([1, -1]) for _ in range(3)]
+        offset = [scale * rng.choice(OFFSETS) * rng.choice([1, -1]) for _ in range(3)]
         nf, nv = len(base["faces"]), len(base["verts"])
-        ref = reference_field(base, scale, offset) if base["closed"] else None
+        ref = reference_field(base, scale, offset) if (base["closed"] and not base["selfint"]) else None
         variants = [[]] + [[k] for k in TKINDS] + [TKINDS] * max(0, n_variants - 5)
+        seen = set()
         for kinds in variants[:n_variants]:
             t = gen_transform(rng, nf, nv, kinds)
             m = apply_transform(base, t, scale, offset)
@@ -504,12 +625,17 @@ def search(ctx, n_bases, n_variants):
             ctx.bump("search-transform:" + ("+".join(kinds) or "identity"))
             ctx.bump(f"search-scale:{scale:g}")
             for clause, what in res:
-                name, m2 = minimal_transform_name(base, t, scale, offset, clause, ref)
-                what2 = [w for c, w in check_mesh(m2, ref) if c == clause]
-                ctx.impl_fail(f"{clause}/{base['construction']}:{name}", (what2 or [what])[0],
-                              {"kind": "mesh", "mesh": m2, "clause": clause, "scale": scale, "offset": offset,
-                               "ref": None if ref is None else [ref[0], np.asarray(ref[1]).tolist(),
-                                                                np.asarray(ref[2]).tolist()]})
+                if clause in seen:
+                    continue
+                seen.add(clause)
+                trig, m2, sc2, off2, ref2 = classify(base, t, scale, offset, clause)
+                what2 = [w for c, w in check_mesh(m2, ref2) if c == clause]
+                what3 = (what2 or [what])[0] + f" [{base['construction']}, {len(m2['faces'])} faces, vertex scale " \
+                    f"{sc2:g}, vertex offset {'yes' if any(off2) else 'no'}]"
+                ctx.impl_fail(f"{clause}/{trig}", what3,
+                              {"kind": "mesh", "mesh": m2, "clause": clause, "scale": sc2, "offset": off2,
+                               "ref": None if ref2 is None else [ref2[0], np.asarray(ref2[1]).tolist(),
+                                                                 np.asarray(ref2[2]).tolist()]})
 
 
 # =============================================================================== correspondence
@@ -563,20 +689,36 @@ def impl_index_run(faces, verts=None, script=None):
         if bits[:half] != bits[half:] or calls[:half] != calls[half:]:
             raise RuntimeError("is_facet_inwards not deterministic")
         bits, calls = bits[:half], calls[:half]
+    # the class level: flags as set by check_open / check_disconnected, faces as left by reorient_faces
+    src = magpy.magnet.TriangularMesh(vertices=v, faces=farr, polarization=POL, reorient_faces="skip",
+                                      check_selfintersecting="skip")
+    st_open, st_disc = src.status_open, src.status_disconnected
+    if not (isinstance(st_open, (bool, np.bool_)) and isinstance(st_disc, (bool, np.bool_))):
+        raise RuntimeError(f"status flags are not booleans: {st_open!r} {st_disc!r}")
+    if script is None:
+        src2 = magpy.magnet.TriangularMesh(vertices=v, faces=farr, polarization=POL, check_selfintersecting="skip")
+        if bool(src2.status_open) != bool(st_open) or bool(src2.status_disconnected) != bool(st_disc):
+            raise RuntimeError("status flags depend on the reorientation mode")
+        if not np.array_equal(np.asarray(src2.faces), np.asarray(fixed)):
+            raise RuntimeError("TriangularMesh.faces differs from fix_trimesh_orientation(vertices, faces)")
+        if not np.array_equal(np.asarray(src2.status_open_data).reshape(-1, 2), np.asarray(open_edges).reshape(-1, 2)):
+            raise RuntimeError("status_open_data differs from get_open_edges(faces)")
+        fixed = np.asarray(src2.faces)
     return {"faces": farr.tolist(), "open": np.asarray(open_edges).tolist(),
             "subsets": [np.asarray(s).tolist() for s in subsets], "oracle": bits, "calls": calls,
-            "mask": [bool(x) for x in mask], "fixed": np.asarray(fixed).tolist()}
+            "mask": [bool(x) for x in mask], "fixed": np.asarray(fixed).tolist(),
+            "st_open": bool(st_open), "st_disc": bool(st_disc)}
 
 
 def c_case(r):
-    return "(mkMC %s %s %s %s %s %s %s)" % (
+    return "(mkMC %s %s %s %s %s %s %s %s %s)" % (
         c_list([c_face(f) for f in r["faces"]]),
         c_list(["(%d, %d)" % (e[0], e[1]) for e in r["open"]]),
         c_list([c_list([c_face(f) for f in s]) for s in r["subsets"]]),
         c_list([c_bool(b) for b in r["oracle"]]),
         c_list(["%d%%nat" % k for k in r["calls"]]),
         c_list([c_bool(b) for b in r["mask"]]),
-        c_list([c_face(f) for f in r["fixed"]]))
+        c_list([c_face(f) for f in r["fixed"]]), c_bool(r["st_open"]), c_bool(r["st_disc"]))
 
 
 def model_check(ctx, tag, runs, chunk=250):
@@ -625,7 +767,8 @@ def exhaustive_abstract(nv, max_faces):
 
 
 CODE_NAMES = {1: "get_open_edges", 2: "get_disconnected_faces_subsets", 4: "is_facet_inwards calls",
-              8: "get_inwards_mask", 16: "fix_trimesh_orientation"}
+              8: "get_inwards_mask", 16: "fix_trimesh_orientation / TriangularMesh.faces",
+              32: "TriangularMesh.status_open", 64: "TriangularMesh.status_disconnected"}
 
 
 def correspondence(ctx, built):
